@@ -70,7 +70,8 @@ fn gen(seed: u64, idx: u64, _tier: Tier) -> Plan {
     let mut s = ServerSpec::basic(Mode::W, &random_seed_hex(&mut rng));
     s.workers = *rng.pick(&[1i64, 1, 2]);
     s.batch_size = *rng.pick(&[1i64, 4, 64]);
-    s.log_level = Some(0);
+    // (what an embedding program logs must not change what is signed)
+    s.log_level = Some(*rng.pick(&[0u8, 0, 0, 3, 4, 5]));
     world_knobs(&mut rng, &mut plan, false);
     if rng.chance(1, 4) {
         // transient send_to / recv_from errors: what the worker does right after one must not
